@@ -201,6 +201,44 @@ func TestC17(t *testing.T) {
 		r.Exhaustive("lattice", allGood)
 	}
 
+	// types: what an object's type property says has no part in its rank - every struct type that carries instants under every
+	// vocabulary type name (its own, another family's, a link's, none, one outside the vocabulary), an earlier and a later one of
+	// each against each other and against a plain note in between
+	if r.WantLayer("types", true) {
+		names := []string{"", "Emoji"}
+		for _, ti := range vocab.GroundTruth {
+			names = append(names, string(ti.Name))
+		}
+		ref := c17Item{"Note@T+30m", c17Make("Object", false, t0.Add(30*time.Minute), time.Time{}, "https://example.com/o/ref"), false, t0.Add(30 * time.Minute)}
+		n := 0
+		for _, gt := range c17Types {
+			for _, tn := range names {
+				cell := fmt.Sprintf("types %s[%s]", gt, tn)
+				if !r.WantCell(cell) {
+					continue
+				}
+				n++
+				mk := func(tag string, pub, upd time.Time) c17Item {
+					it := c17Make(gt, false, pub, upd, "https://example.com/o/typed-"+tag)
+					reflect.ValueOf(it).Elem().FieldByName("Type").SetString(tn)
+					return c17Item{fmt.Sprintf("%s[%s]{%s}", gt, tn, tag), it, false, c17Key(pub, upd)}
+				}
+				early, late := mk("early", t0, time.Time{}), mk("late", t0.Add(-time.Hour), t0.Add(time.Hour))
+				r.Case(cell, true, "types")
+				for _, pr := range [][2]c17Item{{late, early}, {early, late}, {late, ref}, {ref, late}, {early, ref}, {ref, early}, {early, early}} {
+					res, key, detail := c17Call(pr[0], pr[1])
+					if key != "" {
+						r.Report("types", cell, key, detail, cell)
+					} else if want := c17Less(pr[0], pr[1]); res != want {
+						r.Report("types", cell, "order model types", fmt.Sprintf("ItemOrderTimestamp(%s, %s) = %v, reference %v", pr[0].name, pr[1].name, res, want), cell)
+					}
+				}
+			}
+		}
+		r.Cells(n, n)
+		r.Exhaustive("types", !r.Replaying())
+	}
+
 	r.Rapid(t, "random", r.Pick(10000, 50000), func(t *rapid.T) {
 		n := rapid.IntRange(2, 7).Draw(t, "n")
 		idPolicy := rapid.SampledFrom([]string{"distinct", "distinct", "same-id", "no-id"}).Draw(t, "ids")
